@@ -42,10 +42,10 @@ func (c *Chooser) Range(lo, hi int) int { // inclusive
 	}
 	return lo + c.r.IntN(hi-lo+1)
 }
-func (c *Chooser) Bool() bool          { return c.r.IntN(2) == 0 }
-func (c *Chooser) Prob(p float64) bool { return c.r.Float64() < p }
-func (c *Chooser) Uint64() uint64      { return c.r.Uint64() }
-func (c *Chooser) Float() float64      { return c.r.Float64() }
+func (c *Chooser) Bool() bool           { return c.r.IntN(2) == 0 }
+func (c *Chooser) Prob(p float64) bool  { return c.r.Float64() < p }
+func (c *Chooser) Uint64() uint64       { return c.r.Uint64() }
+func (c *Chooser) Float() float64       { return c.r.Float64() }
 func Pick[T any](c *Chooser, xs ...T) T { return xs[c.Intn(len(xs))] }
 func PickW[T any](c *Chooser, xs []T, weights []int) T {
 	total := 0
@@ -119,10 +119,10 @@ type timedEvent struct {
 
 // SchedPlan is the part of a Plan that decides interleavings.
 type SchedPlan struct {
-	Policy string  `json:"policy"`           // seq | uniform | sticky | pct | starve | list
-	Seed   uint64  `json:"seed,omitempty"`   // PRNG seed for the policy
-	Param  int     `json:"param,omitempty"`  // sticky: percent to stay; pct: number of change points; starve: task index
-	List   []int   `json:"list,omitempty"`   // explicit choices at decision points (policy list): index into sorted runnable set
+	Policy string `json:"policy"`          // seq | uniform | sticky | pct | starve | list
+	Seed   uint64 `json:"seed,omitempty"`  // PRNG seed for the policy
+	Param  int    `json:"param,omitempty"` // sticky: percent to stay; pct: number of change points; starve: task index
+	List   []int  `json:"list,omitempty"`  // explicit choices at decision points (policy list): index into sorted runnable set
 }
 
 type World struct {
@@ -180,12 +180,12 @@ func NewWorld(sp SchedPlan, stepCap int) *World {
 	return w
 }
 
-func (w *World) Now() int64   { return w.now }
-func (w *World) Seq() uint64  { return w.seq }
-func (w *World) Steps() int   { return w.steps }
-func (w *World) Aborting() bool { return w.aborting }
+func (w *World) Now() int64        { return w.now }
+func (w *World) Seq() uint64       { return w.seq }
+func (w *World) Steps() int        { return w.steps }
+func (w *World) Aborting() bool    { return w.aborting }
 func (w *World) SchedHash() string { return w.schedHash.String() }
-func (w *World) AdjPairs() int { return len(w.adjPairs) }
+func (w *World) AdjPairs() int     { return len(w.adjPairs) }
 
 // Logf appends an event. It never draws randomness and never reads a clock.
 func (w *World) Logf(op string, format string, args ...any) uint64 {
@@ -386,6 +386,7 @@ func init() {
 
 func (w *World) Run() {
 	activeWorld = w
+	verifsync.Epoch++
 	defer func() { activeWorld = nil }()
 	for {
 		alldone := true
